@@ -107,6 +107,16 @@ def _run_model(case, ctx):
         ctx.violation("%s/construct" % name, "model cannot be built from parameters in bounds", P=P, exc=exc)
         return
     dg = _digest(P)
+    # another instance of the same model class (other parameters) is evaluated first, at fixed arguments: instances share nothing
+    try:
+        other = GM.make_model(name, GM.random_params(name, gen.rng(case["seed"], "other"), typed=False), temperature=T)
+        for x in (0.01, 0.1, 0.5, 1.0):
+            _call(other.loading, x)
+            _call(other.pressure, x)
+            if hasattr(other, "spreading_pressure"):
+                _call(other.spreading_pressure, x)
+    except Exception:
+        pass
     explicit_p = name in GM.PRESSURE_EXPLICIT
     numeric = name in GM.NUMERIC_INVERSE
     mono_ok = GM.is_monotone(name, P)
